@@ -214,7 +214,18 @@ func canonTo(b *strings.Builder, v any, nm namer, depth int) {
 		}
 		b.WriteString("]")
 	default:
-		fmt.Fprintf(b, "<%T %v>", v, v)
+		// typed map / slice flavours: render through their generic view (never print addresses)
+		if m, ok := asMap(v); ok {
+			fmt.Fprintf(b, "%T", v)
+			canonTo(b, m, nm, depth)
+			return
+		}
+		if s, ok := asSlice(v); ok {
+			fmt.Fprintf(b, "%T", v)
+			canonTo(b, s, nm, depth)
+			return
+		}
+		fmt.Fprintf(b, "<%T>", v)
 	}
 }
 
